@@ -116,28 +116,31 @@ def zeroConsts {κ : Type} [DecidableEq κ] (out inn : AMap κ) : AMap κ :=
     | .ors r i | .rs r i => if r == 0 then AMap.insert acc p.1 (.const i) else acc
     | _ => acc) out
 
+/-- what `rule_perform_math_ops` derives for the destination, if anything -/
+def mathResult (n : Node) (inn : AMap Reg) : Option AVal :=
+  let lhs : Option AVal := match n with
+    | .arith _ _ rs1 _ _ => AMap.get inn rs1.val
+    | .iarith _ _ rs1 _ _ => AMap.get inn rs1.val
+    | _ => none
+  let rhs : Option AVal := match n with
+    | .arith _ _ _ rs2 _ => AMap.get inn rs2.val
+    | .iarith _ _ _ imm _ => some (.const imm.val)
+    | _ => none
+  match lhs, rhs with
+  | some (.const x), some (.const y) =>
+    (mathOpOf n.instName).map fun op => AVal.const (operate op x y)
+  | some (.ors r x), some (.const y) =>
+    (scalarOpOf n.instName).map fun op => AVal.ors r (operate op x y)
+  | some (.const x), some (.ors r y) =>
+    -- only addition keeps the base register on the right-hand side
+    ((scalarOpOf n.instName).filter (· == MathOp.add)).map fun op => AVal.ors r (operate op x y)
+  | _, _ => none
+
 def rulePerformMathOps (n : Node) (out inn : AMap Reg) : AMap Reg :=
   match n.writesTo with
   | none => out
   | some rd =>
-    let lhs : Option AVal := match n with
-      | .arith _ _ rs1 _ _ => AMap.get inn rs1.val
-      | .iarith _ _ rs1 _ _ => AMap.get inn rs1.val
-      | _ => none
-    let rhs : Option AVal := match n with
-      | .arith _ _ _ rs2 _ => AMap.get inn rs2.val
-      | .iarith _ _ _ imm _ => some (.const imm.val)
-      | _ => none
-    let result : Option AVal := match lhs, rhs with
-      | some (.const x), some (.const y) =>
-        (mathOpOf n.instName).map fun op => AVal.const (operate op x y)
-      | some (.ors r x), some (.const y) =>
-        (scalarOpOf n.instName).map fun op => AVal.ors r (operate op x y)
-      | some (.const x), some (.ors r y) =>
-        -- only addition keeps the base register on the right-hand side
-        ((scalarOpOf n.instName).filter (· == MathOp.add)).map fun op => AVal.ors r (operate op x y)
-      | _, _ => none
-    match result with
+    match mathResult n inn with
     | some v => AMap.insert out rd.val v
     | none => out
 
